@@ -6,7 +6,7 @@ func init() {
 	register(Harness{
 		Prop: "C10", Pkg: "storage/file", Func: "VerifC10History", InitPkgs: []string{"storage"},
 		Quick:      [][]int64{{2, 0, 0, 0}, {2, 1, 0, 0}, {2, 0, 1, 0}, {1, 1, 1, 0}, {1, 0, 1, 1}, {1, 0, 1, 2}},
-		Thorough:   [][]int64{{3, 0, 0, 0}, {3, 1, 0, 0}, {3, 2, 1, 0}, {3, 0, 1, 0}, {2, 0, 1, 1}, {2, 0, 1, 2}, {2, 1, 0, 2}},
+		Thorough:   [][]int64{{3, 0, 0, 0}, {3, 1, 0, 0}, {2, 2, 1, 0}, {2, 1, 1, 0}, {2, 0, 1, 1}, {2, 0, 1, 2}, {2, 1, 0, 2}, {2, 1, 1, 1}},
 		Unwind:     40,
 		LoopBounds: fileLoopBounds,
 		Desc:       "k symbolic operations on file.New over the file-system model: deliver (fresh/old date, symbolic first content byte), get, mark seen, remove, purge, visit, retention scan and reopen (a new Store on the same path); after every step every mailbox is compared with a reference model (ids, order, subject, from, to, date, seen, size, content), ids are never reused, one deleted event per departure",
